@@ -37,6 +37,7 @@ SecRule ARGS "@rx (?i)sel(ect)" "id:10,phase:1,pass,capture,t:lowercase,setvar:t
 SecRule ARGS|!ARGS:b "@pm union select drop" "id:20,phase:1,pass,t:lowercase,t:trim,setvar:tx.n=+2,nolog"
 SecRule ARGS_NAMES "@streq a" "id:30,phase:2,pass,nolog,chain"
   SecRule ARGS:a "@contains x" "setvar:tx.s=%{MATCHED_VAR}"
+SecRule ARGS "@rx ." "id:32,phase:2,pass,nolog,setvar:'tx.mix_%{MATCHED_VAR_NAME}=<%{MATCHED_VAR}|%{MATCHED_VAR_NAME}|%{tx.s}>'"
 SecRule REQUEST_HEADERS:/^x-/ "@beginsWith evil" "id:40,phase:1,pass,nolog,ctl:ruleRemoveById=50"
 SecRule ARGS:c "@streq x" "id:50,phase:2,pass,nolog,setvar:tx.n=+1"
 SecRule &ARGS "@gt 3" "id:60,phase:2,pass,nolog,skip:1"
